@@ -140,6 +140,7 @@ def run_expr_op(s, op, who):
                  returned_anything=obs['any'] and not obs['exc'])
     obs['post_hash'] = M.state_hash(post)
     obs['changed'] = post != pre
+    obs['req_ids'] = [i for _, i in (required or [])]
     obs['expect_visible'] = bool(required) and any(
         M.must_see(pre, t, pre[t][i], caller) for t, i in required)
     obs['expect_hidden'] = bool(required) and not any(
@@ -220,7 +221,7 @@ def run_engine_case(case):
         'expr': '"%s"' % text.replace('"', '\\"'),
     }
     env.W.eager_executor = not hb
-    env.with_ctx(lambda: env.wf_service.create_workflows(yaml_text),
+    env.with_ctx(lambda: env.wf_service.create_workflows(yaml_text, validate=False),
                  W.ctx_of('B'))
     pre = M.dump(env.raw_conn())
     env.post('start_workflow', ctx=W.ctx_of('B'), wf_identifier='spy',
@@ -242,36 +243,126 @@ def run_engine_case(case):
     post = M.dump(env.raw_conn())
     caller = W.CALLERS['B']
     # everything B can read of its own run
-    mine = {}
-    for t in ('workflow_executions_v2', 'task_executions_v2',
-              'action_executions_v2'):
-        for i, r in post[t].items():
-            if i not in pre[t] and r['project_id'] in ('B', None):
-                mine[i] = json.dumps(r, default=str)
-    blob = '\n'.join(mine.values())
+    new_rows = [(t, r) for t in ('workflow_executions_v2',
+                                 'task_executions_v2',
+                                 'action_executions_v2')
+                for i, r in post[t].items()
+                if i not in pre[t] and r['project_id'] in ('B', None)]
+    blob, ids = [], []
+    for t, r in new_rows:
+        for v in r.values():
+            if isinstance(v, str):
+                blob.append(v)
+                if v[:1] in '[{':
+                    try:
+                        _ids(json.loads(v), ids)
+                    except ValueError:
+                        pass
+    blob = '\n'.join(blob)
     leaked = [rid for m, rid in s.marks.items() if m in blob]
-    leaked += [i for t in ('workflow_executions_v2', 'task_executions_v2')
-               for i in pre[t] if pre[t][i]['project_id'] == 'A'
-               and ('"id\\", \\"%s' % i in blob or '\\"id\\": \\"%s' % i
-                    in blob)]
-    br = M.judge(pre, pre, caller, leaked_marks=leaked)
-    br = [(b, d + ' [in the published variables of B\'s task]')
-          for b, d in br]
-    # rows of B's run must stay B's; A's rows untouched
+    own = set(r['id'] for t, r in new_rows)
+    br = M.judge(pre, pre, caller, returned_ids=[i for i in ids
+                                                 if i not in own],
+                 leaked_marks=leaked)
+    br = [(b, d + " [stored in the rows of B's own run]") for b, d in br]
+    # A's rows must be untouched by B's run
     diff = M.judge(pre, {t: {i: r for i, r in rows.items() if i in pre[t]}
                          for t, rows in post.items()}, caller)
-    br += [x for x in diff if not x[0].startswith('read-')]
+    br += [x for x in diff if x[0].startswith(('modify-', 'delete-'))]
     t1 = [r for r in post['task_executions_v2'].values()
           if r['name'] == 't1' and r['project_id'] in ('B', None)]
     obs = {'exc': None, 'steps': steps, 'post_hash': M.state_hash(post),
            'changed': True, 'ids': [],
            'evaluated': bool(t1) and t1[0]['state'] in ('SUCCESS', 'ERROR')
            and 'seen' in (t1[0]['published'] or ''),
-           'orphans': sorted(
-               '%s/%s' % (t, r['name']) for t in mine and (
-                   'workflow_executions_v2', 'task_executions_v2',
-                   'action_executions_v2')
-               for i, r in post[t].items()
-               if i not in pre[t] and r['project_id'] is None),
+           'orphans': sorted('%s/%s' % (t, r['name']) for t, r in new_rows
+                             if r['project_id'] is None),
+           'exceptions': [x[1] for x in env.W.exceptions][:3]}
+    return obs, br
+
+
+# ------------------------------------------------------------------ use
+USE_KINDS = ('workflow', 'action', 'environment')
+USER_WF = {
+    'workflow': """---
+version: '2.0'
+user:
+  tasks:
+    t1:
+      workflow: %s
+""" % W.NAME,
+    'action': """---
+version: '2.0'
+user:
+  tasks:
+    t1:
+      action: %s
+""" % W.NAME,
+    'environment': """---
+version: '2.0'
+user:
+  tasks:
+    t1:
+      action: std.noop
+      publish:
+        seen: <% env() %>
+""",
+}
+
+
+class UseCase(object):
+    """Tenant `who` runs a workflow of its own that addresses A's workflow
+    (as sub-workflow) / ad-hoc action / environment *by name*."""
+
+    def __init__(self, kind, scope, who, share='none'):
+        self.kind, self.scope, self.who, self.share = kind, scope, who, share
+        self.fn = 'engine:use-by-name'
+        self.id = '%s[%s,%s,share=%s,as=%s]' % (self.fn, kind, scope, share,
+                                                who)
+
+    def spec(self):
+        return [self.kind, self.scope, self.who, self.share]
+
+
+def use_cases():
+    out = []
+    for k in USE_KINDS:
+        for scope in ('private', 'public'):
+            for who in ('A', 'B', 'ADM'):
+                out.append(UseCase(k, scope, who))
+    for share in ('pending', 'accepted', 'rejected'):
+        out.append(UseCase('workflow', 'private', 'M', share))
+    return out
+
+
+def run_use_case(case):
+    s = W.Setup(case.kind, case.scope, 'none', case.share).build()
+    who = case.who
+    caller = W.CALLERS[who]
+    env.W.eager_executor = True
+    env.with_ctx(lambda: env.wf_service.create_workflows(
+        USER_WF[case.kind], validate=False), W.ctx_of(who))
+    pre = M.dump(env.raw_conn())
+    params = {'env': W.NAME} if case.kind == 'environment' else {}
+    env.post('start_workflow', ctx=W.ctx_of(who), wf_identifier='user',
+             wf_namespace='', wf_ex_id=None, wf_input={}, description='',
+             params=params)
+    steps = _drain()
+    post = M.dump(env.raw_conn())
+    blob = []
+    for t in ('workflow_executions_v2', 'task_executions_v2',
+              'action_executions_v2'):
+        for i, r in post[t].items():
+            if i not in pre[t]:
+                blob.extend(v for v in r.values() if isinstance(v, str))
+    blob = '\n'.join(blob)
+    leaked = [rid for m, rid in s.marks.items() if m in blob]
+    br = M.judge(pre, post, caller, leaked_marks=leaked)
+    root = [r for r in post['workflow_executions_v2'].values()
+            if r['name'] == 'user']
+    obs = {'exc': None, 'steps': steps, 'post_hash': M.state_hash(post),
+           'changed': True, 'ids': [],
+           'state': root[0]['state'] if root else None,
+           'used': bool(leaked),
            'exceptions': [x[1] for x in env.W.exceptions][:3]}
     return obs, br
